@@ -342,15 +342,40 @@ def compare(pin, pout, acc, witness, label):
 def roundtrip(open_fn, data_or_path, acc, witness, label, pin):
     from vlib import opcx
 
+    from vlib import env
+
+    # the documented forms of both arguments: a path or a file-like object - in-memory stream, real file handle
+    how = sum(label.encode()) % 3
     try:
-        pkg = open_fn(data_or_path)
-        buf = io.BytesIO()
-        pkg.save(buf)
+        with env.Scratch("c01io") as iotmp:
+            src, fh_in = data_or_path, None
+            if how == 2 and isinstance(data_or_path, io.BytesIO):
+                with open(os.path.join(iotmp, "in.bin"), "wb") as fh:
+                    fh.write(data_or_path.getvalue())
+                src = fh_in = open(os.path.join(iotmp, "in.bin"), "rb")  # opened from a real file object
+                acc.count("opened_from_a_real_file_object")
+            try:
+                pkg = open_fn(src)
+                if how == 0:
+                    buf = io.BytesIO()
+                    pkg.save(buf)
+                    out1 = buf.getvalue()
+                elif how == 1:
+                    pkg.save(os.path.join(iotmp, "out.zip"))
+                    out1 = open(os.path.join(iotmp, "out.zip"), "rb").read()
+                    acc.count("saved_to_a_path")
+                else:
+                    with open(os.path.join(iotmp, "out.zip"), "wb") as fh_out:
+                        pkg.save(fh_out)
+                    out1 = open(os.path.join(iotmp, "out.zip"), "rb").read()
+                    acc.count("saved_to_a_real_file_object")
+            finally:
+                if fh_in is not None:
+                    fh_in.close()
     except Exception as e:  # noqa
         acc.violation("open-save-raises:%s" % type(e).__name__, "%s: %r" % (label, e), witness)
         return
     acc.hit("OpcPackage.save")
-    out1 = buf.getvalue()
     pout = opcx.Pkg.from_bytes(out1)
     compare(pin, pout, acc, witness, label)
     # second pass: save(open(out)) == out, member for member
